@@ -14,8 +14,9 @@ CHECKS = {
         "Every integer below 253^3 and every byte string of length <= 3 is enumerated (quick); the "
         "thorough tier enumerates all 253^4 integers. Encode is compared with a positional model, "
         "decode with the documented formula, plus round trip and k-byte prefix; drawn call sequences check that an "
-        "encoding does not depend on earlier calls; spot checks in fresh interpreters under -O/-OO and as the "
-        "library's first calls issued by eight threads. Exhaustive over the "
+        "encoding does not depend on earlier calls (also calls that raised, run in a forked child with a deadlock "
+        "timeout) nor on the caller's decimal context; spot checks in fresh interpreters under "
+        "-O/-OO/-W error/-bb/-X dev and as the library's first calls issued by eight threads. Exhaustive over the "
         "stated ranges, sampled (stratified + random) for 4-byte values in the quick tier.",
         "Trusted: the harness' positional model (pinned by the repository's 24 vectors).",
         "DESIGN.md 5/C07",
@@ -61,7 +62,8 @@ CHECKS = {
         "Every history of length 10 (quick) / 13 (thorough) over {next, set(a), set(b)} for four "
         "constructor-diverse start triples, plus 5,120 / 100,000 Hypothesis-drawn histories of up to 60 "
         "steps with arbitrary integer start values (including starts whose value is temporarily unavailable: a "
-        "request that fails must not consume a counter slot), checked step by step against start + n mod 10 on "
+        "request that fails must not consume a counter slot; one history in six makes every call on a thread of "
+        "its own), checked step by step against start + n mod 10 on "
         "two lockstep sequencers. Bounded-exhaustive plus sampled.",
         "Trusted: the counter model in the check; start values are read through .value.",
         "DESIGN.md 5/C13",
@@ -72,9 +74,10 @@ CHECKS = {
         "import oracles",
         "Each generated valid tree is run through the real generator in-process, again with permuted "
         "os.walk results / reversed creation order / twice into a pre-populated directory / from the same "
-        "documents in another spelling (CRLF, XML comments, attribute order, quotes, BOM) next to unrelated files, "
+        "documents in another spelling (CRLF, XML comments, attribute order, quotes, BOM, declared encodings) next to unrelated files, "
         "by a generator object that has processed an earlier revision before, and in a "
-        "subprocess under a drawn PYTHONHASHSEED (half of them in the plain C locale); outputs must be byte-identical. A fresh interpreter then "
+        "subprocess under a drawn PYTHONHASHSEED (half of them in the plain C locale, four spellings of the input "
+        "and output paths); outputs must be byte-identical. A fresh interpreter then "
         "imports eolib and checks every declared type (class, __module__, exported from its public "
         "subpackage and from eolib). Sampled: ~480 trees quick, ~4000 thorough. Two open known findings "
         "(import cycles caused by the star-importing package layout) are pinned and excluded by construction.",
@@ -146,7 +149,8 @@ CHECKS = {
         "(thorough) over a 10-symbol boundary alphabet, and Hypothesis strings up to 2048 bytes: length preserved, "
         "two-way round trip except at 0x7E, bytes outside 22..7E only move to the mirrored index, inside land in "
         "21..7D, 00/FF multiset preserved; plus equality with an independent per-byte table; patterned strings up "
-        "to 2 MiB; fresh interpreters under -O/-OO and with eight threads as first use. Exhaustive over the "
+        "to 2 MiB, bytearray subclasses, calls after calls that raised; fresh interpreters under -O/-OO/-W error/-bb/-X dev "
+        "and with eight threads as first use. Exhaustive over the "
         "stated sets, sampled for long strings.",
         "Trusted: the table in vlib/refcodec.py (restates the property; pinned by the repository's 6 vectors).",
         "DESIGN.md 5/C08",
@@ -154,8 +158,8 @@ CHECKS = {
     "C09": (
         "Hypothesis op-list writer histories interpreted step by step against a reference writer twin",
         "16k / 200k histories of 1-40 steps over every add_* method and the mode setter (integers in range, at the "
-        "limit, far beyond, beyond float range; strings with length arguments below/at/above len, padded both ways): a write the "
-        "reference rejects must raise ValueError and leave contents and length unchanged; an accepted write must "
+        "limit, far beyond, beyond float range; strings (lone surrogates and longer mostly-plain ones included) with length arguments below/at/above len, padded both ways): a write the "
+        "reference rejects (negative lengths included) must raise ValueError and leave contents and length unchanged; an accepted write must "
         "append exactly the reference's bytes; the mode reads back as set. Sampled.",
         "Trusted: RefWriter (vlib/refio.py), written from the property statement.",
         "DESIGN.md 5/C09",
@@ -167,7 +171,7 @@ CHECKS = {
         "flip_msb on all 256 values; swap_multiples on all divisibility patterns of length <= 12 for nine multiples; "
         "Hypothesis data from drawn run layouts, multiples 0..300 / large / negative, and operation pipelines undone "
         "by inverse pipelines; buffers of 2^17-1 .. 2^20+1 bytes against the models; fresh interpreters under "
-        "-O/-OO/-W error and with eight threads as first use. Exhaustive over "
+        "-O/-OO/-W error/-bb/-X dev and with eight threads as first use; calls after calls that raised. Exhaustive over "
         "the stated bounds, sampled beyond.",
         "Trusted: the weave and run-reversal models in the check (from the docstrings; pinned by the repository's "
         "vectors); negative multiple 'rejected' is read as ValueError.",
@@ -240,7 +244,8 @@ CHECKS = {
         "For each generated tree and each drawn first import (static and generated module paths) a fresh "
         "interpreter imports it and then eolib; walking attributes from eolib along every module path must yield "
         "sys.modules[path], and every public name (static: ast-derived honouring __all__; generated: the tree's "
-        "types) must be one object in its defining module, its home subpackage and eolib. Sampled: ~160 trees x "
+        "types) must be one object in its defining module, its home subpackage and eolib; one first import per "
+        "tree is made from a zip archive of the package. Sampled: ~160 trees x "
         "<= 4 first imports quick, ~2400 trees thorough.",
         "Trusted: ast-derived list of public names; one interpreter (3.12.1).",
         "DESIGN.md 5/C20",
